@@ -14,8 +14,6 @@ The compilation strategy is hence as follows:
 
 import logging
 from collections import defaultdict
-from functools import reduce
-import operator
 from .. import ir
 from ..graph import relooper
 from . import components
@@ -137,9 +135,6 @@ class IrToWasmCompiler:
         for ir_variable in ir_module.variables:
             addr = self.global_memory
             self.global_labels[ir_variable.name] = addr
-            if ir_variable.value:
-                data = reduce(operator.add, ir_variable.value)
-                self.initial_memory.append((0, addr, data))
             self.global_memory += ir_variable.amount
 
         functions_to_do = []
@@ -177,6 +172,21 @@ class IrToWasmCompiler:
                 self.add_definition(
                     components.Export(ir_function.name, "func", func_ref)
                 )
+
+        # Initial values of the global variables. These may refer to other
+        # variables and to functions, which all have an address by now:
+        for ir_variable in ir_module.variables:
+            if ir_variable.value:
+                data = bytes()
+                for part in ir_variable.value:
+                    if isinstance(part, bytes):
+                        data += part
+                    else:
+                        _, label = part
+                        address = self.get_label_address(label)
+                        data += address.to_bytes(4, "little")
+                addr = self.global_labels[ir_variable.name]
+                self.initial_memory.append((0, addr, data))
 
         # Functions:
         for ir_function, wasm_func in functions_to_do:
@@ -670,17 +680,7 @@ class IrToWasmCompiler:
             self.emit(opcode, value)
             self.stack += 1
         elif tree.name == "LABEL":  # isinstance(tree, ir.LiteralData):
-            if tree.value in self.global_labels:
-                addr = self.global_labels[tree.value]
-            elif self.has_function(tree.value):
-                # Taking pointer of function
-                func_ref = self.function_refs[tree.value]
-                # Table element 0 stays empty: it is the null pointer.
-                addr = len(self.pointed_functions) + 1
-                self.global_labels[tree.value] = addr
-                self.pointed_functions.append(func_ref)
-            else:  # pragma: no cover
-                raise NotImplementedError()
+            addr = self.get_label_address(tree.value)
             self.emit("i32.const", addr)
             self.stack += 1
         elif tree.name in self.cast_operators:
@@ -736,6 +736,22 @@ class IrToWasmCompiler:
             # Jump is handled by shapes!
         else:  # pragma: no cover
             raise NotImplementedError(str(tree))
+
+    def get_label_address(self, label):
+        """Get the address of a variable or literal, or the table index
+        of a function."""
+        if label in self.global_labels:
+            addr = self.global_labels[label]
+        elif self.has_function(label):
+            # Taking pointer of function
+            func_ref = self.function_refs[label]
+            # Table element 0 stays empty: it is the null pointer.
+            addr = len(self.pointed_functions) + 1
+            self.global_labels[label] = addr
+            self.pointed_functions.append(func_ref)
+        else:  # pragma: no cover
+            raise NotImplementedError(label)
+        return addr
 
     def get_ty(self, ir_ty):
         """Get the right wasm type for an ir type"""
